@@ -73,6 +73,9 @@ Definition proj (t : string) : list string :=
 Definition proj_return (t : string) : list string :=
   if String.eqb t "return:" then [] else [t].
 
+Section Interp.
+Variable proj : string -> list string.     (* the vocabulary of the model the skeleton is compared with *)
+
 Fixpoint interp (fuel : nat) (ds : list bool) (toks pend : list string) : list string :=
   match fuel with
   | O => ["out-of-fuel"]
@@ -100,7 +103,9 @@ Fixpoint interp (fuel : nat) (ds : list bool) (toks pend : list string) : list s
     end
   end.
 
-Definition path (ds : list bool) (toks : list string) : list string := interp 400 ds toks [].
+End Interp.
+
+Definition path (ds : list bool) (toks : list string) : list string := interp proj 400 ds toks [].
 
 (* the body of the first goroutine started *)
 Fixpoint go_block (toks : list string) : list string :=
